@@ -24,6 +24,8 @@ func runC04(p *Program, r *Report) {
 	ruleR046(p, r)
 	r.Rule("R04.7", "E2", 2, "placeholder numbers of a multi-row INSERT are checked against all values of the statement: in both dialects the bound handed to updatePlaceholderMap while walking the VALUES tuples is a running total over the tuples, not the width of the current one")
 	ruleR047(p, r)
+	r.Rule("R04.8", "E1", 4, "bound values are indexed in range: in the query encryptors of both dialects every index into the bound values that comes from the placeholder map (a map key), from a subtraction or from a parsed number is proven 0 <= i < len(values) where it is used (a literal recorded as placeholder 0, or a Bind carrying fewer values than the statement has placeholders, otherwise panics the connection handler and the statement is never protected)")
+	boundsRuleK(p, r, "R04.8", []string{"encryptor/postgresql/queryDataEncryptor.go", "encryptor/mysql/queryDataEncryptor.go"}, r048Confirmed, false)
 	r.Rule("R04.5", "E3", 1, "the settings-only MySQL query observer never encrypts: every path to the data encryptor of encryptor/mysql.QueryDataEncryptor passes the 'encryptor == nil' guard, in the function or in all of its callers")
 	ruleR045(p, r)
 }
@@ -480,4 +482,16 @@ func ruleR047(p *Program, r *Report) {
 func init() {
 	mut("C04", "PortalSuspended no longer pops the pending statement", "decryptor/postgresql/protocol.go", "	if packet.IsCommandComplete() || packet.IsEmptyQueryResponse() || packet.IsPortalSuspended() || packet.IsErrorResponse() {", "	if packet.IsPortalSuspended() {\n		p.lastPacketType = OtherPacket\n		return nil\n	}\n	if packet.IsCommandComplete() || packet.IsEmptyQueryResponse() || packet.IsErrorResponse() {", "R04.6", "IsPortalSuspended")
 	mut("C04", "pg placeholder bound is the width of one tuple", "encryptor/postgresql/queryDataEncryptor.go", "		valuesCount += len(values)", "		valuesCount = len(values)", "R04.7", "running total")
+}
+
+// The confirmed table of the bounds rules is keyed "R14.1|function|construct" whichever rule uses it.
+var r048Confirmed = map[string]string{
+	"R14.1|(*encryptor/mysql.QueryDataEncryptor).encryptValuesWithPlaceholders|index values[_#1]":    "MySQL placeholders are `?`, numbered :v1..:vN by acra's own tokenizer (posVarIndex is incremented before it is printed), and the Execute packet is decoded with the parameter count N the server announced for the statement: 0 <= index < len(values). A literal `:v0` in the statement text is a syntax error for the server, so no such statement is ever registered. (PostgreSQL, where the parser reports 0 for a non-placeholder, had the defect: fixed in 6b926e7.)",
+	"R14.1|(*encryptor/mysql.QueryDataEncryptor).encryptValuesWithPlaceholders|index values[_#1] #2": "same index as above, same function",
+}
+
+func init() {
+	mut("C04", "pg: a literal is recorded as placeholder 0 again (original defect)", "encryptor/postgresql/queryDataEncryptor.go", "		if valueIndex < 0 || valueIndex >= len(oldValues) {", "		if valueIndex >= len(oldValues) {", "R04.8", "encryptValuesWithPlaceholders")
+	mut("C04", "pg: Bind with fewer values than placeholders indexes past the end (original defect)", "encryptor/postgresql/queryDataEncryptor.go", "		if valueIndex < 0 || valueIndex >= len(oldValues) {", "		if valueIndex < 0 {", "R04.8", "encryptValuesWithPlaceholders")
+	mut("C04", "pg: placeholder index compared with the wrong end", "encryptor/postgresql/queryDataEncryptor.go", "		if valueIndex < 0 || valueIndex >= len(oldValues) {", "		if valueIndex < 0 || valueIndex > len(oldValues) {", "R04.8", "encryptValuesWithPlaceholders")
 }
